@@ -7,7 +7,10 @@ from . import inherit_spec as IS
 from . import c06
 
 ID = 'C07'
-ENGINE_B = {'template': 't_inherit', 'kinds': ['forward_', 'asref_'], 'max_quick': 12, 'max_thorough': 64}
+# fixed witnesses: a base type occurring twice (no AsRef), a second-level type with a second base, name clashes
+ENGINE_B = {'template': 't_inherit', 'kinds': ['forward_', 'asref_'], 'max_quick': 12, 'max_thorough': 64,
+            'fixed': [[8, 1, 1, 1, 0, 0, 1, 0, 1, 1, 1, 1, 1, 0, 0, 1, 0], [8, 1, 1, 1, 0, 0, 1, 0, 1, 1, 0, 0, 1, 0, 0, 0, 1],
+                      [8, 1, 1, 1, 1, 0, 1, 0, 1, 1, 1, 1, 1, 0, 1, 0, 0]]}
 EXPLANATION = ('Template t_inherit with impl blocks on the bases and on the derived type (public or private), one or two bases with or without '
                'vftables, name clashes between the bases\' functions and between base virtual functions and the derived table, and a '
                'second-level derived type.  For each leaf the solver shows that the path condition admits exactly one description; the '
@@ -25,7 +28,7 @@ def bounds(tier):
 
 
 def slices(tier, rng):
-    return [Slice('assoc-ps%d' % ps, 't_inherit', 15, lambda a, ps=ps: c06.assume(a, ps, 'assoc'), opts={'must_reach': ['ok']})
+    return [Slice('assoc-ps%d' % ps, 't_inherit', 17, lambda a, ps=ps: c06.assume(a, ps, 'assoc'), opts={'must_reach': ['ok']})
             for ps in (4, 8)]
 
 
@@ -69,7 +72,7 @@ def leaf_queries(I, a, leaf, py, sl):
             compare_assoc(cpy, M, problems)
     elif M['accept']:
         problems.append('rejected although the reference accepts')
-    this = z3.And(*[a[i] == z3.BitVecVal(wit[i], 64) for i in range(15)])
+    this = z3.And(*[a[i] == z3.BitVecVal(wit[i], 64) for i in range(17)])
     qs.append(Query('functions-match-reference:' + ('; '.join(problems)[:300] if problems else 'ok'), this if problems else z3.BoolVal(False)))
     return qs
 
